@@ -210,8 +210,9 @@ int64_t cmb_resource_acquire(struct cmb_resource *rp)
      * process itself) may have grabbed it before we got to run. If so, wait again.
      */
     int64_t ret;
+    const double since = cmb_time();
     do {
-        ret = cmb_resourceguard_wait(&(rp->guard), is_available, NULL);
+        ret = cmb_resourceguard_wait_since(&(rp->guard), is_available, NULL, since);
     } while ((ret == CMB_PROCESS_SUCCESS) && (rp->holder != NULL));
 
     /* Now we got past the front door, or perhaps thrown out by the guard */
